@@ -575,6 +575,980 @@ def _k1_targets():
             d._process_text_element]
 
 
+
+# =======================================================================================
+# K2  ODF text (shared element_text walker, ODT body walk, ODG/ODP page walk)
+# =======================================================================================
+
+TEXT = "{urn:oasis:names:tc:opendocument:xmlns:text:1.0}"
+OFFICE = "{urn:oasis:names:tc:opendocument:xmlns:office:1.0}"
+TABLE = "{urn:oasis:names:tc:opendocument:xmlns:table:1.0}"
+DRAW = "{urn:oasis:names:tc:opendocument:xmlns:drawing:1.0}"
+DC = "{http://purl.org/dc/elements/1.1/}"
+PRES = "{urn:oasis:names:tc:opendocument:xmlns:presentation:1.0}"
+SVG = "{urn:oasis:names:tc:opendocument:xmlns:svg-compatible:1.0}"
+
+# OpenDocument 1.2 part 1, 6.1 / 5.x: what a child of text:p contributes to the paragraph text
+ODF_INLINE_SPEC = {
+    "s": "space", "tab": "sep", "line-break": "sep", "span": "inline", "a": "inline",
+    "note": "excluded", "p": "invalid", "h": "invalid", "meta": "inline", "ruby": "other",
+}
+# children of office:text / text:section / table cells
+ODF_BLOCK_SPEC = {"p": "par", "h": "par", "list": "list", "section": "section"}
+
+
+def _odf_mods():
+    import sharepoint2text.parsing.extractors.open_office._shared as sh
+    import sharepoint2text.parsing.extractors.open_office.odt_extractor as odt
+    import sharepoint2text.parsing.extractors.open_office.odg_extractor as odg
+    import sharepoint2text.parsing.extractors.open_office.odp_extractor as odp
+    return sh, odt, odg, odp
+
+
+class OdfGen:
+    def __init__(self, ctx, fmt):
+        self.ctx = ctx
+        self.fmt = fmt
+        self.ref = Ref()
+        self.k = 0
+        self.patch = []        # (index into ref.items, symbolic count, lo, hi, feats)
+
+    def nm(self, s):
+        self.k += 1
+        return "%s%d" % (s, self.k)
+
+    def par(self, parent, tag="p", extra=(), cls="body"):
+        ref = self.ref
+        ref.sep("para")
+        p = ET.SubElement(parent, TEXT + tag)
+        p.text = ref.tok(cls, extra=extra)
+        ref.sep("para")
+        return p
+
+    def annotation(self, parent, feat="annotation"):
+        ref = self.ref
+        an = ET.SubElement(parent, OFFICE + "annotation")
+        ET.SubElement(an, DC + "creator").text = ref.tok("excl", extra=(feat, "creator"))
+        ET.SubElement(an, DC + "date").text = "2024-01-01T00:00:00"
+        ET.SubElement(an, TEXT + "p").text = ref.tok("excl", extra=(feat,))
+        return an
+
+    def textbox(self, parent, n_par=1, feat="textbox"):
+        ref = self.ref
+        fr = ET.SubElement(parent, DRAW + "frame")
+        tb = ET.SubElement(fr, DRAW + "text-box")
+        ref.push(feat)
+        for _ in range(n_par):
+            ref.sep("para", "textbox-para")
+            ET.SubElement(tb, TEXT + "p").text = ref.tok()
+            ref.sep("para", "textbox-para")
+        ref.pop()
+        return fr
+
+    INLINE = ["span", "a", "s-default", "s-count", "s-bad", "tab", "line-break", "note", "annotation", "textbox",
+              "sym", "span-s", "bookmark", "change-marks", "blank-span"]
+
+    def inline(self, p, kind):
+        """append one child to the mixed content of p; returns the child (tail set by caller)"""
+        ctx, ref = self.ctx, self.ref
+        if kind in ("span", "a"):
+            ref.push(kind)
+            c = ET.SubElement(p, TEXT + kind)
+            c.text = ref.tok()
+            ref.pop()
+        elif kind == "blank-span":
+            c = ET.SubElement(p, TEXT + "span")
+            c.text = " "
+        elif kind == "s-default":
+            c = ET.SubElement(p, TEXT + "s")
+            ref.exact(" ", "text-s")
+        elif kind == "s-count":
+            lo, hi = ctx.params.get("c_range", (-1, 3))
+            cnt = ctx.fresh_int(self.nm("text_c"), lo, hi)
+            c = ET.SubElement(p, TEXT + "s")
+            c.set(TEXT + "c", str(cnt) if ctx.concrete else cnt)
+            ref.items.append(("void",))
+            self.patch.append((len(ref.items) - 1, cnt, lo, hi, ref.feats(("text-s",))))
+        elif kind == "s-bad":
+            c = ET.SubElement(p, TEXT + "s")
+            c.set(TEXT + "c", ("x", "", "1.5")[ctx.choice(self.nm("bad_c"), 3)])
+            ref.items.append(("void",))
+        elif kind in ("tab", "line-break"):
+            c = ET.SubElement(p, TEXT + kind)
+            ref.sep("inline-" + kind)
+        elif kind == "note":
+            c = ET.SubElement(p, TEXT + "note")
+            c.set(TEXT + "note-class", "footnote")
+            ET.SubElement(c, TEXT + "note-citation").text = ref.tok("excl", extra=("note", "citation"))
+            nb = ET.SubElement(c, TEXT + "note-body")
+            ET.SubElement(nb, TEXT + "p").text = ref.tok("excl", extra=("note",))
+        elif kind == "annotation":
+            c = self.annotation(p)
+        elif kind == "textbox":
+            ref.sep("para", "textbox-start")
+            c = self.textbox(p, 1 + ctx.choice(self.nm("tb_pars"), 2))
+            ref.sep("para", "textbox-end")
+        elif kind == "span-s":
+            c = ET.SubElement(p, TEXT + "span")
+            c.text = ref.tok()
+            ET.SubElement(c, TEXT + "s")
+            ref.exact(" ", "text-s")
+        elif kind == "bookmark":
+            c = ET.SubElement(p, TEXT + "bookmark")
+            c.set(TEXT + "name", "bm")
+        elif kind == "change-marks":
+            c = ET.SubElement(p, TEXT + "change-start")
+            c.set(TEXT + "change-id", "ct1")
+        elif kind == "sym":
+            lens = ctx.params.get("sym_lens", (1, 3, 4, 10))
+            loc = _sym_local(ctx, self.nm("inline_name"), lens, 45, 122)
+            cls, name = _classify(loc, ODF_INLINE_SPEC)
+            c = ET.SubElement(p, _tag(ctx, TEXT, loc))
+            if cls == "space":
+                ref.exact(" ", "text-s")
+            elif cls == "sep":
+                ref.sep("inline-" + name)
+            elif cls == "inline":
+                c.text = ref.tok(extra=(name,))
+            elif cls == "excluded":
+                c.text = ref.tok("excl", extra=(name,))
+            else:
+                c.text = ref.tok("free")
+            ref.desc.append("text:%s (%s)" % (str(loc), cls))
+        return c
+
+    def focus_par(self, parent, tag="p"):
+        ctx, ref = self.ctx, self.ref
+        ref.sep("para")
+        p = ET.SubElement(parent, TEXT + tag)
+        p.text = ref.tok()
+        kinds = ctx.params.get("inline_kinds") or self.INLINE
+        n = ctx.choice("n_inline", ctx.params.get("M", 2) + 1)
+        for i in range(n):
+            c = self.inline(p, kinds[ctx.choice(self.nm("inline"), len(kinds))])
+            c.tail = ref.tok()
+        ref.sep("para")
+        return p
+
+    # ---- ODT blocks -----------------------------------------------------------------
+    def odt_list(self, parent, variant, depth=0):
+        ref = self.ref
+        ref.sep("list")
+        lst = ET.SubElement(parent, TEXT + "list")
+        ref.push("list" if depth == 0 else "nested-list")
+        if variant == "item-p":
+            self.par(ET.SubElement(lst, TEXT + "list-item"))
+        elif variant == "two-items":
+            self.par(ET.SubElement(lst, TEXT + "list-item"))
+            self.par(ET.SubElement(lst, TEXT + "list-item"))
+        elif variant == "item-p-p":
+            it = ET.SubElement(lst, TEXT + "list-item")
+            self.par(it)
+            self.par(it)
+        elif variant == "nested":
+            it = ET.SubElement(lst, TEXT + "list-item")
+            self.par(it)
+            self.odt_list(it, "item-p", depth + 1)
+            self.par(ET.SubElement(lst, TEXT + "list-item"))
+        elif variant == "item-h":
+            it = ET.SubElement(lst, TEXT + "list-item")
+            self.par(it, "h", extra=("heading-in-list",))
+        elif variant == "header-p":
+            self.par(ET.SubElement(lst, TEXT + "list-header"), extra=("list-header",))
+            self.par(ET.SubElement(lst, TEXT + "list-item"))
+        elif variant == "item-focus":
+            self.focus_par(ET.SubElement(lst, TEXT + "list-item"))
+        ref.pop()
+        ref.sep("list")
+
+    LIST_VARIANTS = ["item-p", "two-items", "item-p-p", "nested", "item-h", "header-p"]
+
+    def odt_table(self, parent, rows, cols, variant, depth=0):
+        ref = self.ref
+        ref.sep("table")
+        tbl = ET.SubElement(parent, TABLE + "table")
+        ET.SubElement(tbl, TABLE + "table-column")
+        ref.push("table" if depth == 0 else "nested-table")
+        for ri in range(rows):
+            holder = tbl
+            if variant == "header-rows" and ri == 0:
+                holder = ET.SubElement(tbl, TABLE + "table-header-rows")
+            tr = ET.SubElement(holder, TABLE + "table-row")
+            for ci in range(cols):
+                ref.sep("cell")
+                tc = ET.SubElement(tr, TABLE + "table-cell")
+                if ri == 0 and ci == 0:
+                    if variant in ("p", "header-rows"):
+                        self.par(tc)
+                    elif variant == "p-p":
+                        self.par(tc)
+                        self.par(tc)
+                    elif variant == "nested":
+                        self.par(tc)
+                        self.odt_table(tc, 1, 1, "p", depth + 1)
+                    elif variant == "list":
+                        self.odt_list(tc, "item-p")
+                    elif variant == "h":
+                        self.par(tc, "h", extra=("heading-in-cell",))
+                    elif variant == "p-textbox":
+                        ref.sep("para")
+                        p = ET.SubElement(tc, TEXT + "p")
+                        p.text = ref.tok()
+                        ref.push("textbox-in-cell")
+                        self.textbox(p)
+                        ref.pop()
+                        ref.sep("para")
+                    elif variant == "focus":
+                        self.focus_par(tc)
+                else:
+                    self.par(tc)
+                ref.sep("cell")
+        ref.pop()
+        ref.sep("table")
+
+    TABLE_VARIANTS = ["p", "p-p", "nested", "list", "h", "p-textbox", "header-rows"]
+    ODT_BLOCKS = ["p", "h", "list", "table", "section", "tracked", "frame", "toc", "sym"]
+
+    def odt_block(self, body, kind):
+        ctx, ref = self.ctx, self.ref
+        if kind in ("p", "h"):
+            self.par(body, kind)
+        elif kind == "list":
+            v = self.LIST_VARIANTS[ctx.choice(self.nm("list"), len(self.LIST_VARIANTS))]
+            self.odt_list(body, v)
+        elif kind == "table":
+            rows = 1 + ctx.choice(self.nm("rows"), 2)
+            cols = 1 + ctx.choice(self.nm("cols"), 2)
+            v = self.TABLE_VARIANTS[ctx.choice(self.nm("cell"), len(self.TABLE_VARIANTS))]
+            self.odt_table(body, rows, cols, v)
+        elif kind == "section":
+            sec = ET.SubElement(body, TEXT + "section")
+            ref.push("section")
+            self.par(sec)
+            ref.pop()
+        elif kind == "tracked":
+            # ODF 1.2 5.5: deleted content is kept inside text:tracked-changes
+            tc = ET.SubElement(body, TEXT + "tracked-changes")
+            reg = ET.SubElement(tc, TEXT + "changed-region")
+            dele = ET.SubElement(reg, TEXT + "deletion")
+            ci = ET.SubElement(dele, OFFICE + "change-info")
+            ET.SubElement(ci, DC + "creator").text = ref.tok("excl", extra=("tracked-deletion", "creator"))
+            ET.SubElement(ci, DC + "date").text = "2024-01-01T00:00:00"
+            ET.SubElement(dele, TEXT + "p").text = ref.tok("excl", extra=("tracked-deletion",))
+        elif kind == "frame":
+            ref.push("page-frame")
+            self.textbox(body, 1)
+            ref.pop()
+        elif kind == "toc":
+            toc = ET.SubElement(body, TEXT + "table-of-content")
+            ib = ET.SubElement(toc, TEXT + "index-body")
+            ref.push("toc")
+            self.par(ET.SubElement(ib, TEXT + "index-title"))
+            self.par(ib)
+            ref.pop()
+        elif kind == "sym":
+            loc = _sym_local(ctx, self.nm("block_name"), ctx.params.get("block_lens", (1, 4, 7)), 45, 122)
+            cls, name = _classify(loc, ODF_BLOCK_SPEC)
+            el = ET.SubElement(body, _tag(ctx, TEXT, loc))
+            ref.desc.append("block text:%s (%s)" % (str(loc), cls))
+            if cls == "par":
+                ref.sep("para")
+                el.text = ref.tok()
+                ref.sep("para")
+            elif cls == "list":
+                ref.push("list")
+                self.par(ET.SubElement(el, TEXT + "list-item"))
+                ref.pop()
+            elif cls == "section":
+                self.par(el)
+            else:
+                ref.sep("para")
+                ET.SubElement(el, TEXT + "p").text = ref.tok("free")
+                ref.sep("para")
+        elif kind == "focus":
+            self.focus_par(body)
+        elif kind == "focus-h":
+            self.focus_par(body, "h")
+        elif kind == "focus-in-cell":
+            self.odt_table(body, 1, 2, "focus")
+        elif kind == "focus-in-list":
+            self.odt_list(body, "item-focus")
+
+    # ---- ODG / ODP page -------------------------------------------------------------
+    SHAPES = ["frame", "frame-2p", "custom-shape", "group", "annotation", "frame-list", "frame-nested", "frame-focus",
+              "notes", "table-frame"]
+
+    def shape(self, page, kind):
+        ctx, ref = self.ctx, self.ref
+        if kind == "frame":
+            self.textbox(page, 1, "frame")
+        elif kind == "frame-2p":
+            self.textbox(page, 2, "frame")
+        elif kind == "custom-shape":
+            cs = ET.SubElement(page, DRAW + "custom-shape")
+            ref.push("custom-shape")
+            self.par(cs)
+            ref.pop()
+            ET.SubElement(cs, DRAW + "enhanced-geometry")
+        elif kind == "group":
+            g = ET.SubElement(page, DRAW + "g")
+            ref.push("group")
+            self.textbox(g, 1, "frame")
+            ref.pop()
+        elif kind == "annotation":
+            self.annotation(page, "page-annotation")
+        elif kind == "frame-list":
+            fr = ET.SubElement(page, DRAW + "frame")
+            tb = ET.SubElement(fr, DRAW + "text-box")
+            lst = ET.SubElement(tb, TEXT + "list")
+            ref.push("frame-list")
+            it = ET.SubElement(lst, TEXT + "list-item")
+            self.par(it)
+            inner = ET.SubElement(it, TEXT + "list")
+            self.par(ET.SubElement(inner, TEXT + "list-item"))
+            ref.pop()
+        elif kind == "frame-nested":
+            fr = ET.SubElement(page, DRAW + "frame")
+            tb = ET.SubElement(fr, DRAW + "text-box")
+            ref.sep("para")
+            p = ET.SubElement(tb, TEXT + "p")
+            p.text = ref.tok()
+            ref.push("frame-in-paragraph")
+            ref.sep("para")
+            inner = self.textbox(p, 1, "frame")
+            ref.sep("para")
+            ref.pop()
+            inner.tail = ref.tok()
+            ref.sep("para")
+        elif kind == "frame-focus":
+            fr = ET.SubElement(page, DRAW + "frame")
+            self.focus_par(ET.SubElement(fr, DRAW + "text-box"))
+        elif kind == "notes":
+            # speaker notes (presentations): documented as not part of the default text
+            notes = ET.SubElement(page, PRES + "notes")
+            fr = ET.SubElement(notes, DRAW + "frame")
+            tb = ET.SubElement(fr, DRAW + "text-box")
+            ET.SubElement(tb, TEXT + "p").text = ref.tok("excl", extra=("speaker-notes",))
+        elif kind == "table-frame":
+            fr = ET.SubElement(page, DRAW + "frame")
+            tbl = ET.SubElement(fr, TABLE + "table")
+            ref.push("table")
+            for ri in range(2):
+                holder = tbl if ri else ET.SubElement(tbl, TABLE + "table-header-rows")
+                tr = ET.SubElement(holder, TABLE + "table-row")
+                for ci in range(2):
+                    ref.sep("cell")
+                    tc = ET.SubElement(tr, TABLE + "table-cell")
+                    ET.SubElement(tc, TEXT + "p").text = ref.tok(extra=("cell",))
+                    ref.sep("cell")
+            ref.pop()
+
+
+def _odf_file(fmt, body_elem):
+    kind = {"odt": "text", "odg": "graphics", "odp": "presentation"}[fmt]
+    root = ET.Element(OFFICE + "document-content")
+    b = ET.SubElement(root, OFFICE + "body")
+    b.append(body_elem)
+    bio = io.BytesIO()
+    with zipfile.ZipFile(bio, "w", zipfile.ZIP_DEFLATED) as z:
+        z.writestr("mimetype", "application/vnd.oasis.opendocument." + kind)
+        z.writestr("content.xml", '<?xml version="1.0" encoding="UTF-8"?>' + _xml(root))
+        z.writestr("META-INF/manifest.xml", '<?xml version="1.0" encoding="UTF-8"?><manifest:manifest xmlns:manifest='
+                   '"urn:oasis:names:tc:opendocument:xmlns:manifest:1.0"><manifest:file-entry manifest:full-path="/" '
+                   'manifest:media-type="application/vnd.oasis.opendocument.%s"/></manifest:manifest>' % kind)
+    bio.seek(0)
+    return bio
+
+
+def k2_odf(ctx):
+    sh, odt, odg, odp = _odf_mods()
+    fmt = ctx.params["fmt"]
+    g = OdfGen(ctx, fmt)
+    ref = g.ref
+    space = ctx.params["space"]
+    if fmt == "odt":
+        body = ET.Element(OFFICE + "text")
+        if space == "inline":
+            g.par(body)
+            g.odt_block(body, ("focus", "focus-h", "focus-in-cell", "focus-in-list")[ctx.choice("container", 4)])
+            g.par(body)
+        else:
+            n = 1 + ctx.choice("n_blocks", ctx.params.get("N", 2))
+            first = ctx.params.get("first")
+            for i in range(n):
+                kinds = [first] if (first and i == 0) else [b for b in g.ODT_BLOCKS if b != "tracked"]
+                g.odt_block(body, kinds[ctx.choice(g.nm("block"), len(kinds))])
+        mod = odt
+    else:
+        body = ET.Element(OFFICE + ("drawing" if fmt == "odg" else "presentation"))
+        pages = 1 + (ctx.choice("extra_page", 2) if space == "shapes" else 0)
+        for pi in range(pages):
+            ref.sep("page")
+            page = ET.SubElement(body, DRAW + "page")
+            if space == "inline":
+                g.shape(page, "frame")
+                g.shape(page, "frame-focus")
+                g.shape(page, "frame")
+            else:
+                n = 1 + ctx.choice(g.nm("n_shapes"), ctx.params.get("N", 2))
+                first = ctx.params.get("first")
+                shapes = [s for s in g.SHAPES if s != "frame-focus" and (fmt == "odp" or s not in ("notes", "table-frame"))]
+                for i in range(n):
+                    kinds = [first] if (first and i == 0 and pi == 0) else shapes
+                    g.shape(page, kinds[ctx.choice(g.nm("shape"), len(kinds))])
+            ref.sep("page")
+        mod = odg if fmt == "odg" else odp
+    info = {"doc": _show(body)[:700], "fmt": fmt}
+    if not ctx.concrete:
+        ctx.hash_universe = S.str_constants(mod) | S.str_constants(sh)
+    channels = None
+    with ctx.shadow(sh, int=S.IntShadow):
+        try:
+            if fmt == "odt":
+                out = odt._extract_full_text(body)
+            elif fmt == "odg":
+                out = odg._extract_full_text(body)
+            else:
+                slides = []
+                for i, page in enumerate(body.findall(DRAW + "page"), start=1):
+                    slide, _ = odp._extract_slide(None, page, i, 0)
+                    slides.append(slide)
+                content = odp.OdpContent(slides=slides)
+                out = content.get_full_text()
+                cells = [c for t in content.iterate_tables() for row in t.get_table() for c in row]
+                channels = [("text", out), ("tables", "\n".join(cells))]
+        except Exception as e:
+            ctx.fail("extractor-raised", exc=type(e).__name__, msg=str(e)[:100], **info)
+            return
+    out = str(out)
+    info["out"] = out[:300]
+    if channels is None:
+        channels = [("text", out)]
+    # text:s counts: concretise after the walker has branched on the symbolic value
+    for idx, cnt, lo, hi, feats in g.patch:
+        n = ctx.conc(cnt, lo, hi)
+        info["text_c"] = n
+        if n >= 0:
+            ref.items[idx] = ("exact", " " * n, feats)
+    if ctx.concrete:
+        import sharepoint2text
+        reader = {"odt": sharepoint2text.read_odt, "odg": sharepoint2text.read_odg, "odp": sharepoint2text.read_odp}[fmt]
+        res = list(reader(_odf_file(fmt, body), "x." + fmt))
+        pub = res[0].get_full_text()
+        want = out if fmt == "odt" else out.strip()
+        ctx.require(pub == want, "public-api-differs-from-kernel", public=pub[:200], **info)
+    only = None
+    if ctx.perturb == "note_is_body":
+        ex = [t for t in ref.tokens("excl")]
+        ctx.assume(len(ex) > 0)
+        i = ref.items.index(ex[-1])
+        ref.items[i] = ("tok", ex[-1][1], "body", ex[-1][3])
+        only = ex[-1][1]
+    elif ctx.perturb == "one_more_space":
+        ex = [i for i, it in enumerate(ref.items) if it[0] == "exact"]
+        ctx.assume(len(ex) > 0)
+        ref.items[ex[0]] = ("exact", ref.items[ex[0]][1] + " ", ref.items[ex[0]][2])
+    _judge(ctx, "K2", ref, channels, info=info, only_token=only)
+
+
+def _k2_parts(tier):
+    m = 2 if tier == "quick" else 3
+    n = 2 if tier == "quick" else 3
+    cr = (-1, 3) if tier == "quick" else (-2, 8)
+    lens = (1, 3, 4, 10) if tier == "quick" else (1, 2, 3, 4, 5, 10)
+    parts = [{"fmt": "odt", "space": "inline", "M": m, "c_range": cr, "sym_lens": lens}]
+    for first in OdfGen.ODT_BLOCKS:
+        parts.append({"fmt": "odt", "space": "blocks", "N": n, "first": first})
+    for fmt in ("odg", "odp"):
+        parts.append({"fmt": fmt, "space": "inline", "M": m if fmt == "odg" else 1, "c_range": cr, "sym_lens": lens})
+        parts.append({"fmt": fmt, "space": "shapes", "N": n})
+    return parts
+
+
+def _k2_targets():
+    sh, odt, odg, odp = _odf_mods()
+    return [sh.element_text, sh._append_element_text, odt._append_full_text_from_element, odt._extract_full_text,
+            odg._extract_full_text, odp._extract_slide, odp._extract_table]
+
+
+
+# =======================================================================================
+# K3  HTML tree builder + text walk, EPUB XHTML walker
+# =======================================================================================
+
+# HTML Living Standard: 13.1.2 void elements; 15.3 "flow content" rendered as blocks (only the
+# elements an HTML writer uses for paragraphs, headings, lists, tables, quotes and line
+# breaks - the boundaries the property names); elements whose content is not rendered.
+HTML_VOID = ("area", "base", "br", "col", "embed", "hr", "img", "input", "link", "meta", "param", "source",
+             "track", "wbr")
+HTML_BLOCK = ("p", "div", "h1", "h2", "h3", "h4", "h5", "h6", "ul", "ol", "li", "blockquote", "pre", "dl", "dt",
+              "dd", "section", "article", "header", "footer")
+HTML_INLINE = ("a", "b", "i", "u", "s", "q", "em", "tt", "big", "bdi", "bdo", "del", "dfn", "ins", "kbd", "sub",
+               "sup", "var", "abbr", "cite", "code", "font", "mark", "nobr", "samp", "span", "time", "small",
+               "label", "strong", "strike", "acronym")
+HTML_REMOVED = ("script", "style", "noscript", "iframe", "object", "embed", "applet")      # property text
+HTML_TABLE_PARTS = ("table", "caption", "colgroup", "col", "thead", "tbody", "tfoot", "tr", "td", "th")
+HTML_NOT_RENDERED = ("title", "template", "datalist", "head", "html", "body", "textarea", "select", "option",
+                     "optgroup", "rp", "rt", "dialog", "details", "summary", "svg", "math", "audio", "video",
+                     "canvas", "frameset", "frame", "noframes", "noembed", "xmp", "plaintext", "listing", "map",
+                     "button", "legend", "fieldset", "form", "menu", "dir", "center", "address", "aside", "nav",
+                     "main", "figure", "figcaption", "hgroup", "search", "picture", "ruby", "meter", "progress",
+                     "output", "slot", "data", "image", "isindex", "keygen", "basefont", "bgsound", "marquee",
+                     "blink", "spacer", "multicol", "nextid", "command", "menuitem", "rb", "rtc")
+
+
+def _html_spec():
+    t = {}
+    for n in HTML_NOT_RENDERED:
+        t[n] = "nodemand"
+    for n in HTML_TABLE_PARTS:
+        t[n] = "tablepart"
+    for n in HTML_INLINE:
+        t[n] = "inline"
+    for n in HTML_BLOCK:
+        t[n] = "block"
+    for n in HTML_VOID:
+        t[n] = "void"
+    for n in HTML_REMOVED:
+        t[n] = "removed"
+    t["embed"] = "void-removed"
+    t["br"] = "void-break"
+    t["hr"] = "void-break"
+    return t
+
+
+HTML_SPEC = _html_spec()
+
+
+def _html_mods():
+    import sharepoint2text.parsing.extractors.html_extractor as h
+    import sharepoint2text.parsing.extractors.epub_extractor as e
+    return h, e
+
+
+class HtmlGen:
+    def __init__(self, ctx):
+        self.ctx = ctx
+        self.ref = Ref()
+        self.toks = []
+        self.k = 0
+        self.omit_end = False
+
+    def nm(self, s):
+        self.k += 1
+        return "%s%d" % (s, self.k)
+
+    def start(self, tag, attrs=()):
+        self.toks.append(("start", tag, list(attrs)))
+
+    def end(self, tag, optional=False):
+        if optional and self.omit_end:
+            return
+        self.toks.append(("end", tag))
+
+    def text(self, s):
+        self.toks.append(("text", s))
+
+    def tok(self, cls="body", extra=(), shape=0):
+        s = self.ref.tok(cls, shape=shape, extra=extra)
+        self.text(s)
+        return s
+
+    def block(self, tag, fill, optional_end=False, feat=None):
+        ref = self.ref
+        ref.sep("block-" + tag)
+        if feat:
+            ref.push(feat)
+        self.start(tag)
+        fill()
+        self.end(tag, optional_end)
+        if feat:
+            ref.pop()
+        ref.sep("block-" + tag)
+
+    INLINE = ["text", "span", "a", "b-nested", "br", "img", "comment", "sym", "blank", "spaced", "entity-space"]
+
+    def inline(self, kind):
+        ctx, ref = self.ctx, self.ref
+        if kind == "text":
+            self.tok()
+        elif kind in ("span", "a"):
+            self.start(kind, [("href", "http://x/")] if kind == "a" else [("class", "c")])
+            self.tok(extra=(kind,))
+            self.end(kind)
+        elif kind == "b-nested":
+            self.start("b")
+            self.tok()
+            self.start("i")
+            self.tok()
+            self.end("i")
+            self.end("b")
+        elif kind == "br":
+            self.start("br")
+            ref.sep("br")
+        elif kind == "img":
+            self.start("img", [("src", "a.png"), ("alt", ref.tok("free", extra=("alt",)))])
+        elif kind == "comment":
+            self.toks.append(("comment", ref.tok("excl", extra=("comment",))))
+        elif kind == "blank":
+            self.text(" ")
+        elif kind == "spaced":
+            self.tok(shape=1)
+        elif kind == "entity-space":
+            self.text("\xa0")
+        elif kind == "sym":
+            lens = ctx.params.get("sym_lens", (1, 2, 3, 5, 6))
+            t = _sym_local(ctx, self.nm("tag"), lens, 48, 122)
+            if not ctx.concrete:
+                for i, ch in enumerate(t.c):
+                    ctx.assume(ch >= 97 if i == 0 else ((ch <= 57) | (ch >= 97)))
+            else:
+                for i, ch in enumerate(t):
+                    ctx.assume(("a" <= ch <= "z") or (i > 0 and "0" <= ch <= "9"))
+            cls, name = _classify(t, HTML_SPEC)
+            # table parts outside a table / second html, head, body: contradictory markup, outside the claim
+            ctx.assume(cls != "tablepart")
+            ctx.assume(name not in ("html", "head", "body", "frameset"))
+            ref.desc.append("<%s> (%s)" % (str(t), cls))
+            if cls in ("void", "void-removed"):
+                self.start(t)
+            elif cls == "void-break":
+                self.start(t)
+                ref.sep("sym-" + name)
+            elif cls == "removed":
+                self.start(t)
+                self.tok("excl", extra=("removed-" + name,))
+                self.end(t)
+            elif cls == "block":
+                ref.sep("sym-block", name)
+                self.start(t)
+                self.tok(extra=("sym-" + name,))
+                self.end(t)
+                ref.sep("sym-block", name)
+            elif cls == "inline":
+                self.start(t)
+                self.tok(extra=("sym-inline",))
+                self.end(t)
+            elif cls == "nodemand":
+                self.start(t)
+                self.tok("free")
+                self.end(t)
+            else:
+                # unknown element: HTMLUnknownElement, rendered inline
+                self.start(t)
+                self.tok(extra=("sym-unknown",))
+                self.end(t)
+
+    def focus(self):
+        ctx = self.ctx
+        kinds = ctx.params.get("inline_kinds") or self.INLINE
+        n = ctx.choice("n_inline", ctx.params.get("M", 2) + 1)
+        self.tok()
+        for i in range(n):
+            self.inline(kinds[ctx.choice(self.nm("inline"), len(kinds))])
+            self.tok()
+
+    CELLS = ["text", "p-p", "br", "nested", "ul", "span-span", "focus"]
+
+    def cell(self, variant):
+        ref = self.ref
+        if variant == "text":
+            self.tok()
+        elif variant == "p-p":
+            self.block("p", self.tok)
+            self.block("p", self.tok)
+        elif variant == "br":
+            self.tok()
+            self.start("br")
+            ref.sep("br", "br-in-cell")
+            self.tok()
+        elif variant == "nested":
+            self.tok()
+            self.table(1, 2, "text", depth=1)
+            self.tok()
+        elif variant == "ul":
+            self.block("ul", lambda: (self.block("li", self.tok, True), self.block("li", self.tok, True)))
+        elif variant == "span-span":
+            self.start("span")
+            self.tok()
+            self.end("span")
+            self.start("span")
+            self.tok()
+            self.end("span")
+        elif variant == "focus":
+            self.focus()
+
+    def table(self, rows, cols, first_cell, depth=0, caption=False, sections=False, header=False):
+        ref = self.ref
+        ref.sep("table")
+        ref.push("table" if depth == 0 else "nested-table")
+        self.start("table")
+        if caption:
+            ref.sep("caption")
+            self.start("caption")
+            self.tok(extra=("caption",))
+            self.end("caption")
+            ref.sep("caption")
+        if sections:
+            self.start("tbody")
+        for ri in range(rows):
+            self.start("tr")
+            for ci in range(cols):
+                ct = "th" if (header and ri == 0) else "td"
+                ref.sep("cell")
+                ref.push("cell")
+                self.start(ct)
+                if ri == 0 and ci == 0:
+                    self.cell(first_cell)
+                else:
+                    self.tok()
+                self.end(ct, True)
+                ref.pop()
+                ref.sep("cell")
+            self.end("tr", True)
+        if sections:
+            self.end("tbody", True)
+        self.end("table")
+        ref.pop()
+        ref.sep("table")
+
+    BLOCKS = ["p", "div-text", "div-p-p", "h2", "h2-br", "ul", "ul-nested", "ol-p", "table", "blockquote", "pre",
+              "bare-text", "bare-br", "hr", "dl", "div-mixed"]
+
+    def blockk(self, kind):
+        ctx, ref = self.ctx, self.ref
+        if kind == "p":
+            self.block("p", self.tok, True)
+        elif kind == "div-text":
+            self.block("div", self.tok)
+        elif kind == "div-p-p":
+            self.block("div", lambda: (self.block("p", self.tok, True), self.block("p", self.tok, True)))
+        elif kind == "div-mixed":
+            # text, block child, tail text inside one div
+            self.block("div", lambda: (self.tok(), self.block("p", self.tok), self.tok()))
+        elif kind == "h2":
+            self.block("h2", self.tok)
+        elif kind == "h2-br":
+            def f():
+                self.tok()
+                self.start("br")
+                ref.sep("br", "br-in-heading")
+                self.tok()
+            self.block("h2", f)
+        elif kind == "ul":
+            self.block("ul", lambda: (self.block("li", self.tok, True), self.block("li", self.tok, True)))
+        elif kind == "ul-nested":
+            def inner():
+                self.tok()
+                self.block("ul", lambda: self.block("li", self.tok, True), feat="nested-list")
+            self.block("ul", lambda: (self.block("li", inner, True), self.block("li", self.tok, True)))
+        elif kind == "ol-p":
+            self.block("ol", lambda: self.block("li", lambda: (self.block("p", self.tok), self.block("p", self.tok))))
+        elif kind == "table":
+            rows = 1 + ctx.choice(self.nm("rows"), 2)
+            cols = 1 + ctx.choice(self.nm("cols"), 2)
+            cells = ctx.params.get("cells") or self.CELLS[:6]
+            v = cells[ctx.choice(self.nm("cell"), len(cells))]
+            extra = ctx.choice(self.nm("table_extra"), 4)
+            self.table(rows, cols, v, caption=(extra == 1), sections=(extra == 2), header=(extra == 3))
+        elif kind == "blockquote":
+            self.block("blockquote", lambda: self.block("p", self.tok))
+        elif kind == "pre":
+            self.block("pre", self.tok)
+        elif kind == "bare-text":
+            self.tok()
+        elif kind == "bare-br":
+            self.tok()
+            self.start("br")
+            ref.sep("br")
+            self.tok()
+        elif kind == "hr":
+            self.start("hr")
+            ref.sep("hr")
+        elif kind == "dl":
+            self.block("dl", lambda: (self.block("dt", self.tok, True), self.block("dd", self.tok, True)))
+        elif kind in ("focus-p", "focus-li", "focus-h2", "focus-div"):
+            tag = kind[6:]
+            if tag == "li":
+                self.block("ul", lambda: self.block("li", self.focus))
+            else:
+                self.block(tag, self.focus)
+        elif kind == "focus-td":
+            self.table(1, 2, "focus")
+
+
+HTML_CDATA = ("script", "style")
+
+
+def _html_lower(toks, h_start, h_end, h_data, h_comment):
+    """token list -> html.parser.HTMLParser callbacks (tags lower-case, script/style content
+    delivered as data until the matching end tag); validated at replay by rendering + feed()"""
+    cdata = None
+    for t in toks:
+        kind = t[0]
+        if cdata is not None:
+            if kind == "end" and bool(t[1] == cdata):
+                cdata = None
+                h_end(t[1])
+            elif kind == "text":
+                h_data(t[1])
+            continue
+        if kind == "text":
+            h_data(t[1])
+        elif kind == "comment":
+            h_comment(t[1])
+        elif kind == "start":
+            h_start(t[1], list(t[2]))
+            name = t[1] if isinstance(t[1], str) else t[1].concrete()
+            if name in HTML_CDATA:
+                cdata = name
+        elif kind == "end":
+            h_end(t[1])
+
+
+def _html_render(toks):
+    out = []
+    for t in toks:
+        if t[0] == "text":
+            out.append(t[1].replace("&", "&amp;").replace("<", "&lt;").replace("\xa0", "&nbsp;"))
+        elif t[0] == "comment":
+            out.append("<!--%s-->" % t[1])
+        elif t[0] == "start":
+            out.append("<%s%s>" % (str(t[1]), "".join(' %s="%s"' % a for a in t[2])))
+        else:
+            out.append("</%s>" % str(t[1]))
+    return "".join(out)
+
+
+def _epub_file(xhtml):
+    bio = io.BytesIO()
+    with zipfile.ZipFile(bio, "w", zipfile.ZIP_DEFLATED) as z:
+        z.writestr("mimetype", "application/epub+zip")
+        z.writestr("META-INF/container.xml", '<?xml version="1.0"?><container version="1.0" xmlns="urn:oasis:names:tc:'
+                   'opendocument:xmlns:container"><rootfiles><rootfile full-path="OEBPS/content.opf" media-type='
+                   '"application/oebps-package+xml"/></rootfiles></container>')
+        z.writestr("OEBPS/content.opf", '<?xml version="1.0"?><package xmlns="http://www.idpf.org/2007/opf" version="3.0" '
+                   'unique-identifier="id"><metadata xmlns:dc="http://purl.org/dc/elements/1.1/"><dc:title>T</dc:title>'
+                   '<dc:identifier id="id">x</dc:identifier><dc:language>en</dc:language></metadata><manifest><item '
+                   'id="c1" href="c1.xhtml" media-type="application/xhtml+xml"/></manifest><spine><itemref idref="c1"/>'
+                   '</spine></package>')
+        z.writestr("OEBPS/c1.xhtml", xhtml)
+    bio.seek(0)
+    return bio
+
+
+def k3_html(ctx):
+    h, e = _html_mods()
+    target = ctx.params["target"]
+    g = HtmlGen(ctx)
+    ref = g.ref
+    space = ctx.params["space"]
+    g.omit_end = bool(ctx.params.get("omit_end"))
+    g.start("html")
+    g.start("body")
+    if space == "inline":
+        g.blockk("p")
+        g.blockk(("focus-p", "focus-li", "focus-h2", "focus-div", "focus-td")[ctx.choice("container", 5)])
+        g.blockk("p")
+    else:
+        n = 1 + ctx.choice("n_blocks", ctx.params.get("N", 2))
+        first = ctx.params.get("first")
+        for i in range(n):
+            kinds = [first] if (first and i == 0) else g.BLOCKS
+            g.blockk(kinds[ctx.choice(g.nm("block"), len(kinds))])
+    g.end("body")
+    g.end("html")
+    toks = g.toks
+    mod = h if target == "html" else e
+    info = {"html": _html_render(toks)[:700], "target": target}
+    tables = []
+    try:
+        if ctx.concrete:
+            # replay: the REAL parser on the rendered document (validates the lowering)
+            html = _html_render(toks)
+            if target == "html":
+                b = h._HtmlTreeBuilder()
+                b.feed(html)
+                ex = h._HtmlTextExtractor(b.get_tree())
+                out = ex.extract()
+            else:
+                x = e._XhtmlTextExtractor()
+                x.feed(html)
+                out, tables = x.get_text(), x.get_tables()
+        else:
+            ctx.hash_universe = S.str_constants(mod) | set(HTML_SPEC)
+            shadows = {"REMOVE_TAGS": S.SymSet(sorted(mod.REMOVE_TAGS)), "BLOCK_TAGS": S.SymSet(sorted(mod.BLOCK_TAGS))}
+            for nm_ in ("_VOID_TAGS", "_VOID_REMOVE_TAGS"):
+                if hasattr(mod, nm_):
+                    shadows[nm_] = S.SymSet(sorted(getattr(mod, nm_)))
+            with ctx.shadow(mod, **shadows):
+                if target == "html":
+                    b = h._HtmlTreeBuilder()
+                    _html_lower(toks, b.handle_starttag, b.handle_endtag, b.handle_data, b.handle_comment)
+                    out = h._HtmlTextExtractor(b.get_tree()).extract()
+                else:
+                    x = e._XhtmlTextExtractor()
+                    _html_lower(toks, x.handle_starttag, x.handle_endtag, x.handle_data, x.handle_comment)
+                    out, tables = x.get_text(), x.get_tables()
+    except Exception as ex_:
+        ctx.fail("extractor-raised", exc=type(ex_).__name__, msg=str(ex_)[:100], **info)
+        return
+    out = str(out)
+    info["out"] = out[:300]
+    channels = [("text", out)]
+    if target == "epub":
+        cells = [str(c) for t in tables for row in t for c in row]
+        channels.append(("tables", "\n".join(cells)))
+        info["cells"] = cells[:12]
+    if ctx.concrete:
+        import sharepoint2text
+        if target == "html":
+            doc = next(sharepoint2text.read_html(io.BytesIO(_html_render(toks).encode("utf-8")), "x.html"))
+            ctx.require(doc.get_full_text() == out, "public-api-differs-from-kernel", public=doc.get_full_text()[:200], **info)
+        else:
+            doc = next(sharepoint2text.read_epub(_epub_file('<?xml version="1.0" encoding="utf-8"?>' +
+                                                            _html_render(toks).replace("&nbsp;", "&#160;")), "x.epub"))
+            pub_cells = [str(c) for t in doc.iterate_tables() for row in t.get_table() for c in row]
+            ctx.require(doc.get_full_text().strip() == out.strip() and pub_cells == cells,
+                        "public-api-differs-from-kernel", public=doc.get_full_text()[:200], **info)
+    only = None
+    if ctx.perturb == "comment_is_body":
+        ex = ref.tokens("excl")
+        ctx.assume(len(ex) > 0)
+        i = ref.items.index(ex[0])
+        ref.items[i] = ("tok", ex[0][1], "body", ex[0][3])
+        only = ex[0][1]
+    elif ctx.perturb == "inline_is_boundary":
+        # twin: claim a boundary between the two tokens of <b>..<i>..</i></b>
+        idx = [i for i, it in enumerate(ref.items) if it[0] == "tok"]
+        ctx.assume(len(idx) >= 4)
+        ref.items.insert(idx[2], ("sep", ("twin",)))
+    _judge(ctx, "K3", ref, channels, deco_chars="-|", info=info, only_token=only)
+
+
+def _k3_parts(tier):
+    m = 2 if tier == "quick" else 3
+    n = 2 if tier == "quick" else 3
+    lens = (1, 2, 3, 5, 6) if tier == "quick" else (1, 2, 3, 4, 5, 6, 7, 8, 10)
+    parts = []
+    for target in ("html", "epub"):
+        parts.append({"target": target, "space": "inline", "M": m, "sym_lens": lens})
+        for first in HtmlGen.BLOCKS:
+            parts.append({"target": target, "space": "blocks", "N": n, "first": first})
+        parts.append({"target": target, "space": "blocks", "N": n, "first": "table", "omit_end": True})
+        parts.append({"target": target, "space": "blocks", "N": n, "first": "ul", "omit_end": True})
+    return parts
+
+
+def _k3_targets():
+    h, e = _html_mods()
+    return [h._HtmlTreeBuilder.handle_starttag, h._HtmlTreeBuilder.handle_endtag, h._HtmlTreeBuilder.handle_data,
+            h._HtmlTextExtractor._process_node, h._HtmlTextExtractor._extract_table, h._HtmlTextExtractor._get_node_text,
+            h._HtmlTextExtractor._format_table_as_text, h._HtmlTextExtractor.extract,
+            e._XhtmlTextExtractor.handle_starttag, e._XhtmlTextExtractor.handle_endtag,
+            e._XhtmlTextExtractor.handle_data, e._XhtmlTextExtractor.get_text]
+
+
 KERNELS = [
     Kernel("K1", "DOCX body walk on bounded abstract documents (symbolic run-child names): tokens once, in order, "
                  "boundaries kept, Fallback/deleted/field-code text absent",
@@ -594,6 +1568,48 @@ KERNELS = [
                         "a paragraph boundary"],
            outside=["more than 2 (3) inline items / block items, tables beyond 2x2, nesting deeper than one level",
                     "formulas (C19), footnotes/comments parts, headers/footers (separate parts, never in the body)"],
+           timeout={"quick": 100, "thorough": 1100}),
+    Kernel("K2", "ODF text: shared element_text walker (symbolic text:c, symbolic child names), ODT body walk, "
+                 "ODG / ODP page walk against the reference stream",
+           k2_odf, targets=_k2_targets, parts=_k2_parts,
+           perturb=[("note_is_body", {"fmt": "odt", "space": "inline", "M": 1, "c_range": (0, 1), "sym_lens": (1,),
+                                      "inline_kinds": ["note"]}),
+                    ("one_more_space", {"fmt": "odt", "space": "inline", "M": 1, "c_range": (0, 2), "sym_lens": (1,),
+                                        "inline_kinds": ["s-count", "s-default"]})],
+           symbolic=["text:c of a text:s (integer in [-1,3], thorough [-2,8]) through int() / > 0 / ' ' * n of the walker",
+                     "local name of one inline child and of one block child in the text: namespace (lengths 1,3,4,10 / "
+                     "1,4,7): the walkers' own ==, `in (p, h)` and `in skip_tags` tests split the names"],
+           choices=["inline children of the focus paragraph (span, a, s, tab, line-break, note, annotation, text box, "
+                    "bookmark, change marks)", "container (body paragraph, heading, table cell, list item, text box)",
+                    "ODT blocks: p, h, list variants (nested, heading item, list-header), table variants (nested, list, "
+                    "heading, text box in cell, header rows), section, tracked-changes, page frame, table of content",
+                    "ODG/ODP shapes per page: text frame, custom shape, group, annotation, list in frame, frame inside a "
+                    "paragraph, speaker notes, table frame"],
+           stubs=["odp._extract_slide is called with ctx=None (no image in the generated frames)"],
+           assumptions=["text:c >= 0 means exactly that many spaces (ODF 1.2 6.1.3); negative / non-numeric counts "
+                        "carry no demand beyond the neighbouring tokens",
+                        "ODP: order across title/body/other groups is not demanded (documented text_combined)"],
+           outside=["styles.xml (headers/footers), more than 2 (3) inline / block items"],
+           timeout={"quick": 100, "thorough": 1100}),
+    Kernel("K3", "HTML tree builder + text walk and EPUB XHTML walker on generated event streams (symbolic inline "
+                 "tag name): visible structure kept",
+           k3_html, targets=_k3_targets, parts=_k3_parts,
+           perturb=[("comment_is_body", {"target": "html", "space": "inline", "M": 1, "inline_kinds": ["comment"]}),
+                    ("inline_is_boundary", {"target": "epub", "space": "inline", "M": 1, "inline_kinds": ["b-nested"]})],
+           symbolic=["name of one inline element (lower-case letters/digits, length 1,2,3,5,6; thorough up to 10): the "
+                     "handlers' / walker's own set-membership and equality tests split the names; the reference "
+                     "classifies them from the HTML Living Standard (void, removed, block, inline, not rendered)"],
+           choices=["inline items of the focus element (text, span, a, nested b/i, br, img, comment, blank, nbsp)",
+                    "container (p, li, h2, div, td)", "blocks: p, div, headings (with br), lists (nested, paragraphs in "
+                    "item), table r x c with first-cell variants (two paragraphs, br, nested table, list), caption, "
+                    "tbody, th row, blockquote, pre, bare text, hr, dl; optional end tags omitted (p, li, td, tr)"],
+           assumptions=["lowering to callbacks follows html.parser of this Python; validated at replay by rendering the "
+                        "document and running the real feed() and the public read_html / read_epub",
+                        "symbolic names are not table parts or html/head/body (contradictory markup)",
+                        "EPUB: a token inside a table cell may appear in the chapter text or in the extracted tables"],
+           outside=["attribute values with markup, character references other than &amp; &lt; &nbsp;, documents whose "
+                    "text ends in an unterminated '&' (read_html never calls close())",
+                    "MHTML MIME unwrapping, EPUB spine/zip plumbing"],
            timeout={"quick": 100, "thorough": 1100}),
 ]
 
